@@ -433,7 +433,7 @@ def isclause_shortcut_is_exact(S, n, op):
                  siff(holds, sor(*[siff(sigma[L.v], L.s) for L in q.clause]) if q.clause else False))
 
 
-@contract(P, kind="enum", functions=[M + "pseudobool.largebit", M + "pseudobool.insert"], scope="bounded: n <= 4096; lists of <= 5 terms")
+@contract(P, kind="enum", functions=[M + "pseudobool.largebit", M + "pseudobool.insert"], scope="bounded: n <= 4096 and n near powers of two up to 2**200; lists of <= 5 terms")
 def largebit_and_insert(replay=None):
     failures = []
     evals = 0
@@ -443,6 +443,28 @@ def largebit_and_insert(replay=None):
         if not (p >= 1 and p & (p - 1) == 0 and p <= n < 2 * p):
             failures.append(dict(clause="largebit_is_the_largest_power_of_two_not_above_n", n=n, observed=p))
             break
+    # large arguments (added after seed C07-8: a float logarithm rounds up just below a power of two from 2**49 on): all n within
+    # 2 of a power of two up to 2**200, and the coefficient-decomposition encoding of an inequality with such a coefficient
+    if not failures:
+        for k in range(1, 201):
+            for n in (2 ** k - 2, 2 ** k - 1, 2 ** k, 2 ** k + 1, 3 * 2 ** k - 1):
+                if n < 1:
+                    continue
+                p = pb.largebit(n)
+                evals += 1
+                if p != 1 << (n.bit_length() - 1):
+                    failures.append(dict(clause="largebit_is_the_largest_power_of_two_not_above_n", n=n, observed=p))
+                    break
+            if failures:
+                break
+    if not failures:
+        for big in (2 ** 20 - 1, 2 ** 49 - 1, 2 ** 53 + 1, 2 ** 60 - 1, 3 * 2 ** 55 - 1):
+            for dec in (False, True):
+                evals += 1
+                st, f = check_one(3, [(0, True, big), (1, True, 1), (2, True, 1)], 0, [], big + 1, ">=", dec, also_solve=True)
+                if f:
+                    f.update(coefficient=big, decomposition=dec)
+                    failures.append(f)
     nt = 0
     for k in range(0, 5):
         for cs in itertools.product([1, 2, 3], repeat=k):
@@ -456,7 +478,8 @@ def largebit_and_insert(replay=None):
                 if got != sorted(base + ([c] if c else []), reverse=True):
                     failures.append(dict(clause="insert_keeps_the_list_sorted", base=base, inserted=c, observed=got))
     return dict(evaluations=evals, distinct_nontrivial=nt, exhaustive=True, failures=failures[:3],
-                rule="largebit(n) for all n in 1..4096; insert of coefficient 0..4 into every sorted list of <= 4 terms over {1,2,3}",
+                rule="largebit(n) for all n in 1..4096 and for every n within 2 of a power of two up to 2**200; inequalities with one coefficient of 2**20-1 .. 2**60-1 under both "
+                     "constructions (all assignments); insert of coefficient 0..4 into every sorted list of <= 4 terms over {1,2,3}",
                 samples=[dict(n=37, largebit=pb.largebit(37))], bound="n <= 4096")
 
 
